@@ -195,6 +195,9 @@ type Expectation struct {
 	HexAlias      bool   // a header with a hexadecimal page digit was seen whose decimal reading equals the selected page's
 }
 
+// UnsettledDesignation is the Unsettled text for a designation that contradicts the page header.
+const UnsettledDesignation = "X/28 or M/29 designates another G0 set / national option than the page header"
+
 type instance struct {
 	desig      int // 7-bit default G0 designation of the last X/28 / M/29 seen before the instance closed, -1 = none
 	start, end int64
@@ -365,7 +368,7 @@ func Expect(s Stream, o ReadOpts, v Variant) (x Expectation) {
 			continue
 		}
 		if in.desig >= 0 && in.desig != int(in.nat) {
-			x.Unsettled = "X/28 or M/29 designates another G0 set / national option than the page header"
+			x.Unsettled = UnsettledDesignation
 		}
 		c := Cue{Start: ns(in.start - first), End: ns(in.end - first)}
 		var rows []int
